@@ -30,10 +30,11 @@ type superGraph struct {
 	root     *ssa.Function
 	callSite map[*ssa.Function]*ssa.Call   // closure -> its unique direct call (IIFE)
 	dyn      map[*ssa.Call][]*ssa.Function // call of a closure value returned by an IIFE -> candidates
+	sites    map[*ssa.Function][]*ssa.Call // closure / helper -> all its direct calls (a local function called several times)
 }
 
 func newSuperGraph(root *ssa.Function) *superGraph {
-	sg := &superGraph{root: root, callSite: map[*ssa.Function]*ssa.Call{}, dyn: map[*ssa.Call][]*ssa.Function{}}
+	sg := &superGraph{root: root, callSite: map[*ssa.Function]*ssa.Call{}, dyn: map[*ssa.Call][]*ssa.Function{}, sites: map[*ssa.Function][]*ssa.Call{}}
 	count := map[*ssa.Function]int{}
 	fam := map[*ssa.Function]bool{}
 	for _, f := range withAnons(root) {
@@ -49,6 +50,7 @@ func newSuperGraph(root *ssa.Function) *superGraph {
 				g := mc.Fn.(*ssa.Function)
 				count[g]++
 				sg.callSite[g] = c
+				sg.sites[g] = append(sg.sites[g], c)
 				return
 			}
 			if c.Call.IsInvoke() {
@@ -58,6 +60,7 @@ func newSuperGraph(root *ssa.Function) *superGraph {
 			if g, ok := c.Call.Value.(*ssa.Function); ok && fam[originFn(g)] && isHelper(g) {
 				count[originFn(g)]++
 				sg.callSite[originFn(g)] = c
+				sg.sites[originFn(g)] = append(sg.sites[originFn(g)], c)
 				return
 			}
 			// a closure value returned by an immediately-invoked closure and called later
@@ -365,6 +368,9 @@ func ruleP10Epoch(p *Prog, r *Report) {
 				return
 			}
 			n++
+			if k := len(sg.sites[f]); k > 1 {
+				n += k - 1 // one creation site in a local function that serves k places
+			}
 			a := c.Call.Args // recv, block, line, start, length
 			code := "?"
 			if rc, _ := callOf(a[0]); rc != nil && staticCallee(rc) != nil {
@@ -673,6 +679,71 @@ func ruleP10Accessors(p *Prog, r *Report) {
 			}
 		})
 		r.check(strings.Join(reps, ",") == " :Position,^:Length", rule, "terminal:carets", p.pos(pp.Pos()), "carets: Position() blanks then Length() carets", "the caret line is not Position() blanks followed by Length() carets: "+strings.Join(reps, ","))
+		// the quoted line: LineText() goes to the output character for character, on one line —
+		// through nothing but one-for-one character replacements (tab -> blank), styling and %s
+		bad := ""
+		nQuote := 0
+		eachInstrIn(withAnons(pp), func(in ssa.Instruction) {
+			c, ok := in.(ssa.CallInstruction)
+			if !ok || !c.Common().IsInvoke() || c.Common().Method.Name() != "LineText" || c.Value() == nil {
+				return
+			}
+			nQuote++
+			seen := map[ssa.Value]bool{}
+			work := []ssa.Value{c.Value()}
+			for len(work) > 0 && len(seen) < 200 {
+				v := work[len(work)-1]
+				work = work[:len(work)-1]
+				if seen[v] || v.Referrers() == nil {
+					continue
+				}
+				seen[v] = true
+				for _, ref := range *v.Referrers() {
+					switch x := ref.(type) {
+					case *ssa.MakeInterface, *ssa.Phi, *ssa.ChangeType:
+						work = append(work, x.(ssa.Value))
+					case *ssa.BinOp:
+						if x.Op == token.ADD {
+							work = append(work, x)
+						}
+					case *ssa.Store:
+						if ia, isIA := x.Addr.(*ssa.IndexAddr); isIA && x.Val == v {
+							if al, isAl := ia.X.(*ssa.Alloc); isAl {
+								for _, r2 := range *al.Referrers() {
+									if sl, isSl := r2.(*ssa.Slice); isSl {
+										work = append(work, sl)
+									}
+								}
+							}
+						}
+					case ssa.CallInstruction:
+						g := staticCallee(x)
+						name := calleeName(x)
+						switch {
+						case g != nil && (g.String() == "strings.Replace" || g.String() == "strings.ReplaceAll") && x.Common().Args[0] == v:
+							o, ok1 := constString(x.Common().Args[1])
+							nw, ok2 := constString(x.Common().Args[2])
+							if ok1 && ok2 && len([]rune(o)) == 1 && len([]rune(nw)) == 1 && nw != "\n" && nw != "\r" {
+								work = append(work, x.Value())
+							} else {
+								bad = "a replacement that is not one character for one character at " + p.instrPos(x)
+							}
+						case g != nil && strings.HasPrefix(g.String(), "fmt.Sprint"):
+							work = append(work, x.Value())
+						case x.Common().IsInvoke() && (x.Common().Method.Name() == "Format" || x.Common().Method.Name() == "FormatAndRestore"), g != nil && (fnBase(g) == "Format" || fnBase(g) == "FormatAndRestore"):
+							work = append(work, x.Value())
+						case g != nil && (g.String() == "(*strings.Builder).WriteString" || strings.HasPrefix(g.String(), "fmt.Fprint")):
+							// appended to the report that is being assembled
+						case x.Value() != nil && x.Common().Signature().Results().Len() == 1 && isErrorType(x.Common().Signature().Results().At(0).Type()):
+							// the finished report is wrapped into the error that is returned
+						default:
+							bad = name + " at " + p.instrPos(x)
+						}
+					}
+				}
+			}
+		})
+		r.check(bad == "" && nQuote > 0, rule, "terminal:quote", p.pos(pp.Pos()), "the faulty line is quoted character for character on one line", "the quoted line passes through "+bad+" before it is printed: it is no longer the line as it stands in the file, and the carets under it (drawn from Position() and Length() of the original line) point at other text")
 	}
 }
 
